@@ -36,7 +36,7 @@
 (***************************************************************************)
 EXTENDS Naturals, Sequences, FiniteSets, SequencesExt, TLC
 
-CONSTANTS NChunks, QCap, OchCap, Pause, MaxT, MaxEvents, MaxPerTick, DrainAfterQuit, ShowBeforeStop
+CONSTANTS NChunks, QCap, OchCap, Pause, MaxT, MaxEvents, MaxPerTick, DrainAfterQuit, AfterCancel
 
 VARIABLES
   \* BrokerOut
@@ -46,56 +46,91 @@ VARIABLES
   now, muted, deadline, everO, nev, inTick, lastShown, firedAt, act,
   \* composition history
   displayed,    \* what reached the terminal's screen: chunk numbers, 0 = notice
-  quit,         \* the operator has ended the program: the terminal takes nothing any more
+  quit,         \* "no" | "key" (Ctrl+C / Ctrl+D read: the shell's own context is cancelled, its
+                \* output goroutine is about to return) | "returned" (Shell.Do has returned; main's
+                \* error group cancels every other context)
   finished,     \* the server has finished by itself (-one-shell): every context is cancelled
-  tstopped      \* the terminal's output goroutine has returned because of that
+  tstopped,     \* the terminal's output goroutine has returned because of that
+  left,         \* lines the output goroutine may still show after its context was cancelled
+                \* (-1 = not cancelled, -2 = as many as there are)
+  queuedAt, shownAfter   \* history: lines queued when it was cancelled / shown since
 
 ovars == <<rpc, rpend, rerr, fpc, hold, endedBy, q, qclosed, och, ctxDone, closed, nread,
            sent, shown, fwd, dropped, logd, selfEnd>>
 tvars == <<now, muted, deadline, everO, nev, inTick, lastShown, firedAt, act>>
-vars == <<ovars, tvars, displayed, quit, finished, tstopped>>
+cvars == <<quit, finished, tstopped, left, queuedAt, shownAfter>>
+vars == <<ovars, tvars, displayed, cvars>>
 
 Out == INSTANCE BrokerOut WITH ReaderSelectsCtx <- TRUE, MayOmitNotice <- FALSE
 Op  == INSTANCE Opshell WITH Emit <- FALSE
 
-Init == Out!Init /\ Op!Init /\ displayed = <<>> /\ quit = FALSE /\ finished = FALSE /\ tstopped = FALSE
+Init == /\ Out!Init /\ Op!Init /\ displayed = <<>>
+        /\ quit = "no" /\ finished = FALSE /\ tstopped = FALSE /\ left = -1 /\ queuedAt = 0 /\ shownAfter = 0
+
+Cancelled == left # -1
+(* what the output goroutine does once it sees its context cancelled (lib/opshell handleOutput): *)
+(*   "none"    returns at once (the tree as found)                                              *)
+(*   "queued"  first shows the lines that were queued at that moment (the repair)               *)
+(*   "all"     shows whatever is or becomes queued (the first, wrong version of the repair)     *)
+LeftAtCancel == CASE AfterCancel = "none" -> 0 [] AfterCancel = "queued" -> Len(och) [] OTHER -> -2
+MayTake == ~Cancelled \/ left > 0 \/ left = -2
+MayReturn == Cancelled /\ (left = 0 \/ och = <<>>)
 
 (* the terminal takes the next item from the operator channel and handles it *)
 TakeAndShow ==
-  /\ och # <<>> /\ ~quit /\ ~tstopped /\ UNCHANGED <<quit, finished, tstopped>>
+  /\ och # <<>> /\ quit = "no" /\ ~tstopped /\ ~Cancelled
   /\ Out!Term
   /\ IF Head(och) = 0
      THEN Op!Status /\ displayed' = Append(displayed, 0)
      ELSE Op!Plain /\ displayed' = IF muted THEN displayed ELSE Append(displayed, Head(och))
+  /\ UNCHANGED cvars
+(* ... and what it still takes once its context has been cancelled (no key presses, no *)
+(* timer any more: the mute state stays as it is)                                      *)
+TakeAfterCancel ==
+  /\ och # <<>> /\ quit # "returned" /\ ~tstopped /\ Cancelled /\ MayTake
+  /\ Out!Term
+  /\ displayed' = IF Head(och) # 0 /\ muted THEN displayed ELSE Append(displayed, Head(och))
+  /\ left' = IF left > 0 THEN left - 1 ELSE left
+  /\ shownAfter' = shownAfter + 1
+  /\ UNCHANGED <<tvars, quit, finished, tstopped, queuedAt>>
 
-B(A) == A /\ UNCHANGED <<tvars, displayed, quit, finished, tstopped>>
+B(A) == A /\ UNCHANGED <<tvars, displayed, cvars>>
 BrokerStep == B(Out!Reader \/ Out!Forwarder \/ Out!Cancel \/ Out!CloseTransport)
-OperatorStep == /\ ~quit /\ (Op!CtrlO \/ Op!TimerFire \/ Op!Tick)
-                /\ UNCHANGED <<ovars, displayed, quit, finished, tstopped>>
+OperatorStep == /\ quit = "no" /\ (Op!CtrlO \/ Op!TimerFire \/ Op!Tick)
+                /\ UNCHANGED <<ovars, displayed, cvars>>
 
-Quit ==
-  /\ ~quit /\ quit' = TRUE
+(* Ctrl+C / Ctrl+D: ReadLine returns, the shell's own context is cancelled; the output path of *)
+(* the broker goes on until main has cancelled everything                                      *)
+QuitKey ==
+  /\ quit = "no" /\ ~finished /\ quit' = "key"
+  /\ left' = LeftAtCancel /\ queuedAt' = Len(och) /\ shownAfter' = 0
+  /\ UNCHANGED <<ovars, tvars, displayed, finished, tstopped>>
+(* the output goroutine returns, so Shell.Do returns, so main's error group cancels the rest *)
+TermReturn ==
+  /\ quit = "key" /\ MayReturn /\ quit' = "returned"
   /\ IF ctxDone THEN UNCHANGED ovars ELSE Out!Cancel
-  /\ UNCHANGED <<tvars, displayed, finished, tstopped>>
+  /\ UNCHANGED <<tvars, displayed, finished, tstopped, left, queuedAt, shownAfter>>
 
 (* repaired design: what arrives on the operator channel after the shell has returned is thrown away *)
 Discard ==
-  /\ quit /\ DrainAfterQuit /\ och # <<>>
+  /\ quit = "returned" /\ DrainAfterQuit /\ och # <<>>
   /\ och' = Tail(och)
   /\ UNCHANGED <<rpc, rpend, rerr, fpc, hold, endedBy, q, qclosed, ctxDone, closed, nread,
-                 sent, shown, fwd, dropped, logd, selfEnd, tvars, displayed, quit, finished, tstopped>>
+                 sent, shown, fwd, dropped, logd, selfEnd, tvars, displayed, cvars>>
 
-(* -one-shell: the output path is done (its notice is on the channel), the server finishes *)
+(* -one-shell: the output path is done (its notice is on the channel), the server finishes and *)
+(* every context is cancelled, the output goroutine's included                                 *)
 Finish ==
-  /\ ~quit /\ ~finished /\ fpc = "done" /\ finished' = TRUE
+  /\ quit = "no" /\ ~finished /\ fpc = "done" /\ finished' = TRUE
+  /\ left' = LeftAtCancel /\ queuedAt' = Len(och) /\ shownAfter' = 0
   /\ UNCHANGED <<ovars, tvars, displayed, quit, tstopped>>
-(* the terminal's output goroutine sees the cancellation and returns *)
+(* the terminal's output goroutine returns *)
 TermStop ==
-  /\ finished /\ ~tstopped /\ (ShowBeforeStop => och = <<>>)
+  /\ finished /\ ~tstopped /\ MayReturn
   /\ tstopped' = TRUE
-  /\ UNCHANGED <<ovars, tvars, displayed, quit, finished>>
+  /\ UNCHANGED <<ovars, tvars, displayed, quit, finished, left, queuedAt, shownAfter>>
 
-Next == TakeAndShow \/ BrokerStep \/ OperatorStep \/ Quit \/ Discard \/ Finish \/ TermStop
+Next == TakeAndShow \/ TakeAfterCancel \/ BrokerStep \/ OperatorStep \/ QuitKey \/ TermReturn \/ Discard \/ Finish \/ TermStop
 Spec == Init /\ [][Next]_vars
 Fair ==
   /\ WF_vars(B(Out!RLoop)) /\ WF_vars(B(Out!RSend)) /\ WF_vars(B(Out!RSendCtx)) /\ WF_vars(B(Out!RExit))
@@ -103,7 +138,7 @@ Fair ==
   /\ WF_vars(B(Out!FTake)) /\ WF_vars(B(Out!FClosed)) /\ WF_vars(B(Out!FCtx)) /\ WF_vars(B(Out!FFwd))
   /\ WF_vars(B(Out!FLog)) /\ WF_vars(B(Out!FDrop)) /\ WF_vars(B(Out!FNotice)) /\ WF_vars(B(Out!FRelease))
   /\ WF_vars(B(fpc = "done" /\ Out!CloseTransport))
-  /\ WF_vars(Discard)
+  /\ WF_vars(Discard) /\ WF_vars(TermReturn) /\ WF_vars(TermStop) /\ WF_vars(TakeAfterCancel)
 FairSpec == Spec /\ Fair
 
 Data(s) == SelectSeq(s, LAMBDA x : x # 0)
@@ -121,12 +156,15 @@ UnmutedAndUncancelledLosesNothing ==
   (~everO /\ ~ctxDone /\ fpc = "done" /\ och = <<>>) => Data(displayed) = sent
 (* C20 / C04: once the operator has ended the program the output path finishes, however *)
 (* full the operator channel was                                                        *)
-EndsAfterQuit == quit ~> (fpc = "done")
+EndsAfterQuit == (quit # "no") ~> (fpc = "done")
+(* ... and the output goroutine does not go on showing what arrives after it was told to stop: *)
+(* with a shell that floods the terminal it would never return (C20)                          *)
+BoundedAfterCancel == shownAfter <= queuedAt
 
 (* C04 with -one-shell: the closing notices of the last shell are shown although the    *)
 (* program is on its way out (unless the operator has ended it himself)                 *)
-NoticeShownAtCompletion == (tstopped /\ ~quit) => och = <<>>
+NoticeShownAtCompletion == (tstopped /\ quit = "no") => och = <<>>
 
 (* the terminal never waits for the broker: it can always take what is there *)
-TerminalIndependent == (~quit /\ ~tstopped /\ och # <<>> /\ nev < MaxEvents /\ inTick < MaxPerTick /\ ~Op!Due /\ firedAt # now /\ ~(muted /\ deadline = now)) => ENABLED TakeAndShow
+TerminalIndependent == (quit = "no" /\ ~Cancelled /\ ~tstopped /\ och # <<>> /\ nev < MaxEvents /\ inTick < MaxPerTick /\ ~Op!Due /\ firedAt # now /\ ~(muted /\ deadline = now)) => ENABLED TakeAndShow
 =============================================================================
